@@ -65,7 +65,7 @@ GapsOfSorted(len, rs) ==
          ELSE LET first == IF mg[1].s # 0 THEN <<Rng(0, mg[1].s)>> ELSE <<>>
                   mid   == [i \in 1 .. (Len(mg) - 1) |-> Rng(Stop(mg[i]), mg[i + 1].s - Stop(mg[i]))]
                   lst   == mg[Len(mg)]
-                  last  == IF Stop(lst) # len THEN <<Rng(Stop(lst), len - Stop(lst))>> ELSE <<>>
+                  last  == IF Stop(lst) < len THEN <<Rng(Stop(lst), len - Stop(lst))>> ELSE <<>>   \* `<`: a merged range can reach beyond the buffer (repaired D30, was `#`)
               IN first \o mid \o last
 
 SortedByStart(rs) == \A i \in 1 .. (Len(rs) - 1) : rs[i].s <= rs[i + 1].s
